@@ -41,6 +41,8 @@ def run_history(rng, counters):
     from wv.gen import genome
 
     tmp = tempfile.mkdtemp(prefix="c13h-", dir=os.environ.get("WV_SCRATCH"))
+    if rng.random() < 0.3:
+        return run_history_poly(rng, counters, tmp)
     try:
         nsamp = rng.choice([1, 2])
         p = {"n_chrom": rng.choice([1, 2]), "chrom_len": 2000, "n_var": rng.randint(4, 14), "kinds": ["snv", "snv", "ins", "del"],
@@ -80,6 +82,52 @@ def run_history(rng, counters):
                 viol.append({"mech": "history-differs", "msg": "%s:%d unphase(phase(x)) %r vs unphase(x) %r (tag %s)" % (a["chrom"], a["pos"], ka, kb, tag)})
                 break
         return viol, nphased >= 2, desc
+    finally:
+        shutil.rmtree(tmp, ignore_errors=True)
+
+
+def run_history_poly(rng, counters, tmp):
+    """The same for a file phased by whatshap polyphase (optionally with --include-haploid-sets)."""
+    from whatshap.cli.polyphase import run_polyphase
+    from whatshap.cli.unphase import run_unphase
+
+    from wv.gen import genome
+
+    try:
+        P = rng.choice([2, 3, 4])
+        p = {"ploidy": P, "n_chrom": 1, "chrom_len": 2000, "n_var": rng.randint(5, 12), "samples": ["sampleA"], "depth": 6, "read_len": (200, 700),
+             "error_rate": 0.01, "multiallelic": rng.choice([0.0, 0.2])}
+        sim = genome.simulate_poly(rng, tmp, p)
+        hs = rng.random() < 0.6
+        desc = {"params": p, "polyphase": True, "include_haploid_sets": hs}
+        phased = os.path.join(tmp, "phased.vcf")
+        try:
+            run_polyphase(phase_input_files=list(sim.bams), variant_file=sim.vcf, reference=sim.fasta, output=phased, ploidy=P,
+                          include_haploid_sets=hs, write_command_line_header=False)
+        except Exception:
+            return [], False, desc
+        u1, u2 = os.path.join(tmp, "u1.vcf"), os.path.join(tmp, "u2.vcf")
+        try:
+            run_unphase(phased, u1)
+            run_unphase(sim.vcf, u2)
+        except Exception:
+            tb = traceback.format_exc()
+            return [{"mech": classify_crash(tb, None), "msg": "run_unphase raised in the polyphase history stratum: %s" % tb[-1200:]}], False, desc
+        counters["history_pairs_checked"] = counters.get("history_pairs_checked", 0) + 1
+        counters["history_pairs_polyphase"] = counters.get("history_pairs_polyphase", 0) + 1
+        r1 = vcftext.parse(open(u1).read())[2]
+        r2 = vcftext.parse(open(u2).read())[2]
+        viol = []
+        for a, b in zip(r1, r2):
+            if a != b:
+                ka = {k: a[k] for k in a if a[k] != b.get(k)}
+                kb = {k: b[k] for k in ka}
+                left = sorted(set(a.get("fmt") or []) - set(b.get("fmt") or []))
+                viol.append({"mech": "history-differs" + (":format-tag-left:" + ",".join(left) if left else ""),
+                             "msg": "%s:%d unphase(polyphase(x)) %r vs unphase(x) %r (include_haploid_sets=%r)" % (a["chrom"], a["pos"], ka, kb, hs)})
+                break
+        nph = sum(1 for r in vcftext.parse(open(phased).read())[2] for c_ in r["calls"] if "|" in c_.get("GT", ""))
+        return viol, nph >= 2, desc
     finally:
         shutil.rmtree(tmp, ignore_errors=True)
 
